@@ -271,8 +271,11 @@ def Sess.new (p : Profile) (txMk txMs rxMk rxMs : Bytes) : Sess := ⟨p, txMk, t
 
 def lookup (t : List Ctx) (ssrc : Nat) : Option Ctx := t.find? (·.ssrc = ssrc)
 
-/-- replace the context of `c.ssrc` in place -/
-def replace (t : List Ctx) (c : Ctx) : List Ctx := t.map (fun x => if x.ssrc = c.ssrc then c else x)
+/-- store `c` back into the slot `lookup` found it in (the first — and, keys of a map being
+unique, only — context with that SSRC) -/
+def replace : List Ctx → Ctx → List Ctx
+  | [], _ => []
+  | x :: xs, c => if x.ssrc = c.ssrc then c :: xs else x :: replace xs c
 
 /-- `evict_stale_*`: above the high-water mark, drop every context idle for the eviction time,
 except `keep`. -/
